@@ -9,6 +9,7 @@ func init() {
 		func(c *Ctx) {
 			ruleBTWidth(c, true)
 			ruleBTRec(c)
+			ruleALBump(c)
 			ruleBTPure(c)
 			ruleRecList(c)
 			ruleBTArrMap(c)
